@@ -380,7 +380,11 @@ fn make_cases(tier: Tier) -> Vec<Case> {
         Tier::Quick => (3u32, 1u32, 2usize),
         Tier::Thorough => (3u32, 2u32, 3usize),
     };
-    let shapes = gen_lists(budget, 3, nest, true);
+    let mut shapes = gen_lists(budget, 3, nest, true);
+    if tier == Tier::Quick {
+        // plus every shape of two atoms with sub-patterns nested two deep (e.g. ((a) b) ...)
+        shapes.extend(gen_lists(2, 3, 2, true).into_iter().filter(|s| format!("{:?}", s).matches("Sub(").count() >= 2));
+    }
     let mut cases = vec![];
     for (si, shape) in shapes.iter().enumerate() {
         for ell in ["...", ":::"] {
@@ -615,7 +619,7 @@ pub fn run(ctx: &Ctx) -> i32 {
     rep.extra("valid_r7rs_pairs", json!(valid_n));
     rep.extra("single_reruns_after_worker_death", json!(retry.len()));
     rep.rule = format!(
-        "Every pattern shape with at most {} atoms (variable, literal, _, datum), <= 3 elements per list, sub-patterns nested <= {}, an ellipsis on at most one element per list (after a variable or a sub-pattern), an optional dotted tail variable, default and custom ellipsis; for each, every template of: the product of per-variable usages (dropped, v, (v), (v K), (v v), inner-first for depth 2, each with as many ellipses as the variable's depth), reversed order, shared ellipsis, a depth-0 variable inside another variable's ellipsis, dotted tails, vector, nested quote, a variable used in two places, and the R7RS-invalid shapes (too few / too many ellipses, ellipsis after a depth-0 variable); for each, uses with every ellipsis matching 0..{} items and near misses (too short, too long, wrong literal, wrong datum, atom for list, improper); every 7th shape also as the second rule behind a more specific first rule = {} (transformer, use) pairs, run in isolated workers (address-space cap, per-batch watchdog). Oracle: valid R7RS => a reported error or exactly the reference instantiation; no rule matches => an error; invalid R7RS => any outcome; always: no panic, abort or hang. Non-trivial = a valid pair whose outcome was the reference expansion or the required rejection.",
+        "Every pattern shape with at most {} atoms (variable, literal, _, datum), <= 3 elements per list, sub-patterns nested <= {} (quick tier: plus all two-atom shapes nested two deep), an ellipsis on at most one element per list (after a variable or a sub-pattern), an optional dotted tail variable, default and custom ellipsis; for each, every template of: the product of per-variable usages (dropped, v, (v), (v K), (v v), inner-first for depth 2, each with as many ellipses as the variable's depth), reversed order, shared ellipsis, a depth-0 variable inside another variable's ellipsis, dotted tails, vector, nested quote, a variable used in two places, and the R7RS-invalid shapes (too few / too many ellipses, ellipsis after a depth-0 variable); for each, uses with every ellipsis matching 0..{} items and near misses (too short, too long, wrong literal, wrong datum, atom for list, improper); every 7th shape also as the second rule behind a more specific first rule = {} (transformer, use) pairs, run in isolated workers (address-space cap, per-batch watchdog). Oracle: valid R7RS => a reported error or exactly the reference instantiation; no rule matches => an error; invalid R7RS => any outcome; always: no panic, abort or hang. Non-trivial = a valid pair whose outcome was the reference expansion or the required rejection.",
         match ctx.tier { Tier::Quick => 3, Tier::Thorough => 4 },
         match ctx.tier { Tier::Quick => 2, Tier::Thorough => 3 },
         match ctx.tier { Tier::Quick => 2, Tier::Thorough => 3 },
